@@ -154,8 +154,8 @@ Family familyAt(uint64_t i, bool small, uint64_t seed) {
     Rng r = caseRng(seed, 0xfa, i);
     Family f;
     bool directed = i % 2 == 0;
-    unsigned kind = (unsigned)((i / 2) % 6);
-    unsigned step = (unsigned)(i / 12);
+    unsigned kind = (unsigned)((i / 2) % 8);
+    unsigned step = (unsigned)(i / 16);
     switch (kind) {
     case 0: {
         unsigned w = small ? 2 + step % 2 : 2 + step % 3;
@@ -189,10 +189,32 @@ Family familyAt(uint64_t i, bool small, uint64_t seed) {
         f.name = "bipartite(" + std::to_string(a) + "," + std::to_string(b) + ")";
         break;
     }
-    default: {
+    case 5: {
         unsigned n = small ? 3 + step % 5 : 5 + (step * 7) % 60;
         f.s = cycleWithChords(directed, n, r);
         f.name = "cycleWithChords(" + std::to_string(n) + ")";
+        break;
+    }
+    case 6: { // chain of shortcut triangles: a_i -> b_i -> a_{i+1} and the direct a_i -> a_{i+1}
+        unsigned k = small ? 1 + step % 4 : 2 + (step * 3) % 30;
+        f.s.directed = directed;
+        f.s.n = 2 * k + 1;
+        for (unsigned t = 0; t < k; ++t) {
+            f.s.edges.push_back({2 * t, 2 * t + 1});
+            f.s.edges.push_back({2 * t + 1, 2 * t + 2});
+            f.s.edges.push_back({2 * t, 2 * t + 2});
+        }
+        f.name = "shortcutTriangles(" + std::to_string(k) + ")";
+        break;
+    }
+    default: { // dense random graph: many decrease-key events
+        unsigned n = small ? 4 + step % 5 : 6 + (step * 5) % 25;
+        f.s.directed = directed;
+        f.s.n = n;
+        for (unsigned a = 0; a < n; ++a)
+            for (unsigned b = directed ? 0 : a; b < n; ++b)
+                if (r.chance(3, 5)) f.s.edges.push_back({a, b});
+        f.name = "denseRandom(" + std::to_string(n) + ")";
     }
     }
     f.name = std::string(directed ? "directed " : "undirected ") + f.name;
@@ -433,9 +455,11 @@ template <class G> std::string c11(const G &g, bool exhaustivePairs) {
     return "";
 }
 
-template <class G> G buildUnweighted(const GraphSpec &s, unsigned variant, Rng &r) {
+// copies > 1: every edge is inserted that many times with force=true (parallel entries in the neighbour lists)
+template <class G> G buildUnweighted(const GraphSpec &s, unsigned variant, Rng &r, unsigned copies = 1) {
     G g(s.n);
-    for (auto &e : insertionOrder(s, variant, r)) g.addEdge(e.first, e.second);
+    for (auto &e : insertionOrder(s, variant, r))
+        for (unsigned c = 0; c < copies; ++c) g.addEdge(e.first, e.second, c > 0);
     return g;
 }
 
@@ -443,7 +467,7 @@ template <class G> G buildUnweighted(const GraphSpec &s, unsigned variant, Rng &
 struct WSpec {
     GraphSpec s;
     std::map<Edge, double> w;
-    int alphabet; // 0 {0,1,2,3}, 1 dyadic, 2 random doubles, 3 all zero
+    int alphabet; // 0 {0,1,2,3}, 1 dyadic, 2 random doubles, 3 all zero, 4 by index distance, 5 integers 1..9
 };
 WSpec weigh(const GraphSpec &s, int alphabet, Rng &r) {
     WSpec ws;
@@ -461,6 +485,12 @@ WSpec weigh(const GraphSpec &s, int alphabet, Rng &r) {
             w = zero ? 0.0 : mant * mag;
             break;
         }
+        case 4: { // structured: neighbouring indices cheap, jumps dear (shortcut triangles, decrease-key cascades)
+            unsigned dist = e.first > e.second ? e.first - e.second : e.second - e.first;
+            w = dist <= 1 ? 1.0 : 1.0 + 2.0 * dist;
+            break;
+        }
+        case 5: w = (double)(1 + r.u(9)); break;
         default: w = 0.0;
         }
         ws.w[e] = w;
@@ -699,11 +729,12 @@ int main(int argc, char **argv) {
                 }
             } else {
                 // small exhaustive topologies get every alphabet, the rest one seeded alphabet
-                int nalpha = s.exhaustive && s.n <= 3 ? 4 : 1;
+                int nalpha = s.exhaustive && s.n <= 3 ? 6 : 2;
                 for (int a = 0; a < nalpha && e.empty(); ++a) {
-                    int alphabet = nalpha == 4 ? a : (int)(idx % 4);
+                    int alphabet = nalpha == 6 ? a : (a == 0 ? (int)(idx % 4) : 4 + (int)((idx / 4) % 2));
                     WSpec ws = weigh(s, alphabet, r);
-                    R.count(std::string("weight_alphabet_") + (alphabet == 0 ? "0123" : alphabet == 1 ? "dyadic" : alphabet == 2 ? "random_double" : "all_zero"));
+                    static const char *an[] = {"0123", "dyadic", "random_double", "all_zero", "by_index_distance", "integers_1_to_9"};
+                    R.count(std::string("weight_alphabet_") + an[alphabet]);
                     if (s.directed) { auto g = buildWeighted<CountDW>(ws, variant, r); e = c12(g, ws, 0); cls = "DirectedWeightedGraph"; }
                     else { auto g = buildWeighted<CountUW>(ws, variant, r); e = c12(g, ws, 0); cls = "UndirectedWeightedGraph"; }
                     if (!e.empty()) {
@@ -749,13 +780,17 @@ int main(int argc, char **argv) {
             auto sources = pickSources(s.n, r);
             std::string e, cls;
             unsigned variant = idx % 2 ? 2 : 0;
-            if (s.directed) { auto g = buildUnweighted<CountDir<NoLabel>>(s, variant, r); e = c19bfs(g, sources); cls = "LabeledDirectedGraph<NoLabel>"; }
-            else { auto g = buildUnweighted<CountUnd<NoLabel>>(s, variant, r); e = c19bfs(g, sources); cls = "LabeledUndirectedGraph<NoLabel>"; }
+            // every third case holds each edge twice or three times (forced duplicates are graphs too; E counts list entries)
+            unsigned copies = idx % 3 == 2 ? 2 + (unsigned)(idx % 2) : 1;
+            if (copies > 1) R.count("graphs_with_forced_duplicate_edges");
+            if (s.directed) { auto g = buildUnweighted<CountDir<NoLabel>>(s, variant, r, copies); e = c19bfs(g, sources); cls = "LabeledDirectedGraph<NoLabel>"; }
+            else { auto g = buildUnweighted<CountUnd<NoLabel>>(s, variant, r, copies); e = c19bfs(g, sources); cls = "LabeledUndirectedGraph<NoLabel>"; }
             if (!e.empty()) { R.violation(cls + "/" + obs(e) + "/" + (e.find("findAll") != std::string::npos ? "findAllVertexPredecessors" : "findVertexPredecessors"), e + " on " + curDesc); return; }
             // Dijkstra with the exact bound V+E+1; zero weights, zero cycles, ties. Keep it to moderate sizes (every source is run).
             if (s.n <= 60) {
-                int alphabet = (int)(idx % 4);
-                WSpec ws = weigh(s, alphabet == 2 ? 0 : alphabet, r);
+                static const int c19alpha[] = {0, 1, 4, 3, 5, 4};
+                int alphabet = c19alpha[idx % 6];
+                WSpec ws = weigh(s, alphabet, r);
                 uint64_t listLen = 0;
                 if (s.directed) {
                     auto g = buildWeighted<CountDW>(ws, variant, r);
